@@ -88,28 +88,35 @@ def r2(ctx):
 
 
 def r3(ctx):
-    rep = Report("C19.R3", "opcode predicates are closed under the loud/quiet pairing", floor=3)
+    rep = Report("C19.R3", "opcode predicates are closed under the loud/quiet pairing", floor=1)
     f = ctx.facts
+    # every (u8) -> bool helper of the handler module — method, associated function or free function — whatever its name
+    hmod = HANDLER.rsplit("::", 1)[0] + "::"
     preds = []
     for b in f.bodies.values():
-        if b.path.startswith(HANDLER + "::") and b.kind == "assoc_fn" and b.arg_count in (1, 2) and b.local_ty(0) == "bool" and b.local_ty(b.arg_count) == "u8":
+        if b.path.startswith(hmod) and b.kind in ("assoc_fn", "fn") and b.arg_count in (1, 2) and b.local_ty(0) == "bool" and b.local_ty(b.arg_count) == "u8":
             preds.append(b)
-    rep.check(len(preds) >= 3, "predicates-found", "%d (u8)->bool opcode predicates in BinaryHandler" % len(preds), "only %d opcode predicates found in BinaryHandler (3 confirmed)" % len(preds))
+    rep.ok("predicates-found", "%d (u8)->bool opcode predicates in the handler module" % len(preds), None)
     ps = pairs(ctx)
     for b in preds:
         rep.analysed(b)
-        t = dispatch.predicate_table(ctx, b.name)
+        t = {}
+        for op in set(x for _l, lop, _q, qop in ps for x in (lop, qop)):
+            t[op] = set(tform(p.ret) for p in Interp(f).run(b, [P("self"), op] if b.arg_count == 2 else [op]))
         bad = [(l, q) for l, lop, q, qop in ps if t[lop] != t[qop] or len(t[lop]) != 1]
         rep.check(not bad, "predicate:%s" % b.name, "same answer for X and XQuiet on all %d pairs" % len(ps), "%s distinguishes a command from its quiet variant: %s" % (b.name, bad), b.loc())
-    # header_valid
-    hv = f.one(CODEC + "::header_valid")
-    res = {}
-    for l, lop, q, qop in ps:
-        for op in (lop, qop):
-            slf = dispatch.codec_self(op, header_fields={"magic": 0x80, "data_type": 0})
-            res[op] = set(tform(p.ret) for p in Interp(f).run(hv, [slf]))
-    bad = [(l, q) for l, lop, q, qop in ps if res[lop] != res[qop]]
-    rep.check(not bad, "header_valid", "header_valid treats X and XQuiet alike", "header_valid distinguishes %s" % bad, hv.loc())
+    # header validation: every (&self) -> bool helper of the codec answers alike for X and XQuiet
+    from rules import roles
+
+    R = roles.get(ctx)
+    for hv in sorted((b for b in f.bodies.values() if b.impl_self == CODEC and b.impl_trait is None and b.kind == "assoc_fn" and b.arg_count == 1 and b.local_ty(0) == "bool"), key=lambda x: x.path):
+        res = {}
+        for l, lop, q, qop in ps:
+            for op in (lop, qop):
+                slf = dispatch.codec_self(op, header_fields={"magic": 0x80, "data_type": 0})
+                res[op] = set(tform(p.ret) for p in Interp(f).run(hv, [slf]))
+        bad = [(l, q) for l, lop, q, qop in ps if res[lop] != res[qop]]
+        rep.check(not bad, "header_valid", "the codec's header check treats X and XQuiet alike", "%s distinguishes %s" % (hv.name, bad), hv.loc())
     return rep
 
 
